@@ -7,7 +7,8 @@ RULE = ("schedules = sequences of Await(reader,key)/Store(set of key->value for 
         "keys [duty,validator]; generated (a) by TLC simulation of AggSigDBGen and (b) by a seeded random generator (up to 8 "
         "concurrent readers over overlapping keys, stores before/after reads, equal and conflicting re-stores inside "
         "multi-entry sets, cancellations, expiries and re-stores after expiry); every schedule is executed on BOTH "
-        "aggsigdb.NewMemDB and aggsigdb.NewMemDBV2 (readers are goroutines, scripted deadliner); distinct = distinct "
+        "aggsigdb.NewMemDB and aggsigdb.NewMemDBV2 (readers are goroutines, scripted deadliner); (c) blocks of 2-3 concurrent "
+        "Store calls (conflicting/equal data, same/different keys, overlap forced by the gated deadliner stub); distinct = distinct "
         "recorded traces")
 ASSUMPTIONS = [
     "a scripted core.Deadliner stands in for the real one (expiry = the duty the driver sends on C(); Run's sequential loop "
@@ -18,7 +19,10 @@ ASSUMPTIONS = [
     "runs out although the key was stored, a lost wake-up on that key can go unnoticed in that trace (never a false alarm)",
     "which entries of a failing Store preceded the mismatch (Go map order) is inferred by TLC from what readers returned",
     "a cancelled Await may return either the context error or a value it legitimately obtained (the selects race)",
-    "Store is called by one goroutine at a time; concurrent writers are not exercised",
+    "concurrent writers: 2-3 Store calls overlap in blocks whose overlap is forced through the gated deadliner stub (Add "
+    "blocks the first writer inside the store while the next is started; a later writer is taken to be blocked after 150 ms, "
+    "which only decides when the gate opens); TLC infers the linearisation from per-writer StoreCall/StoreRet bracketing; "
+    "readers are not started inside a block",
 ]
 DUTIES = ["d1", "d2", "d3"]
 PKS = ["p1", "p2", "p3", "p4"]
@@ -119,6 +123,66 @@ def random_schedules(seed, n, big):
     return out
 
 
+def concurrent_schedules(seed, n, big):
+    """Blocks of 2-3 CONCURRENT Store calls (step CStore: the executor forces the overlap through the gated deadliner
+    stub) with conflicting / equal data for the same and for different keys, surrounded by readers."""
+    r = vlib.rng(seed, "c17cw")
+    out = []
+    for i in range(n):
+        kind = r.choice(["fresh-conflict", "fresh-conflict", "fresh-equal", "disjoint", "overlap", "overlap", "stored-conflict"])
+        d = r.choice(DUTIES[:2])
+        pks = PKS[:r.randint(2, 4)]
+        steps, nr = [], 0
+
+        def await_(k):
+            nonlocal nr
+            nr += 1
+            steps.append({"ev": "Await", "r": "r%d" % nr, "k": k})
+
+        def ent(p, v):
+            return {"k": {"d": d, "p": p}, "v": v}
+
+        for _ in range(r.randint(0, 3)):           # sleepers before the writers start
+            await_({"d": d, "p": r.choice(pks)})
+        nw = 2 if r.random() < 0.7 else 3
+        p0 = r.choice(pks)
+        vs = r.sample(VALS, 3)
+        if kind == "stored-conflict":
+            steps.append({"ev": "Store", "set": [ent(p0, vs[0])]})
+        if kind == "fresh-conflict":
+            sets = [[ent(p0, vs[w % 3])] for w in range(nw)]
+            if nw == 3 and r.random() < 0.5:
+                sets[2] = [ent(p0, vs[0])]          # two equal, one different
+        elif kind == "fresh-equal":
+            sets = [[ent(p0, vs[0])] for w in range(nw)]
+        elif kind == "disjoint":
+            ps = r.sample(pks, min(nw, len(pks)))
+            sets = [[ent(ps[w % len(ps)], r.choice(VALS))] for w in range(nw)]
+        elif kind == "stored-conflict":
+            sets = [[ent(p0, vs[1 + (w % 2)])] + ([ent(r.choice([p for p in pks if p != p0]), r.choice(VALS))] if r.random() < 0.6 else [])
+                    for w in range(nw)]
+        else:                                       # overlapping multi-entry sets, conflicts on some keys
+            sets = []
+            for w in range(nw):
+                ps = r.sample(pks, r.randint(1, len(pks)))
+                if p0 not in ps:
+                    ps.append(p0)
+                sets.append([ent(p, r.choice(vs[:2])) for p in ps])
+        steps.append({"ev": "CStore", "sets": sets})
+        for _ in range(r.randint(1, 3)):           # readers afterwards see the surviving value
+            await_({"d": d, "p": r.choice(pks)})
+        if r.random() < 0.5:
+            # a second block: re-stores of what the first block wrote (equal for one writer, conflicting for the other)
+            steps.append({"ev": "CStore", "sets": [[ent(p0, vs[w % 2])] for w in range(2)]})
+            await_({"d": d, "p": p0})
+        if r.random() < 0.3:
+            steps.append({"ev": "Expire", "d": d})
+            steps.append({"ev": "CStore", "sets": [[ent(p0, vs[(w + 1) % 3])] for w in range(2)]})
+            await_({"d": d, "p": p0})
+        out.append(steps)
+    return out
+
+
 def mutators():
     def wrong_value(t):
         for e in t:
@@ -164,6 +228,17 @@ def mutators():
                 return t
         return None
 
+    def both_ok(t):
+        # two concurrent conflicting stores of the same key both "succeed"
+        calls = {}
+        for e in t:
+            if e.get("ev") == "StoreCall":
+                calls[e["w"]] = e
+            if e.get("ev") == "StoreRet" and e["res"] == "mismatch" and e["w"] != "w0" and len(calls[e["w"]]["set"]) == 1:
+                e["res"] = "ok"
+                return t
+        return None
+
     def drop_store(t):
         # the Store call disappears but its reader returns stay
         # (only where no failed Store precedes: after one, TLC rightly keeps "that key was stored then" alive)
@@ -177,7 +252,12 @@ def mutators():
     return [("returned value replaced", wrong_value), ("cancelled reader returns a value", value_for_cancelled),
             ("AwaitReturn dropped (reader stays asleep)", drop_return), ("mismatch reported as ok", mismatch_accepted),
             ("ok reported as mismatch", ok_rejected), ("context error without Cancel", err_without_cancel),
-            ("Store dropped, returns kept", drop_store)]
+            ("Store dropped, returns kept", drop_store), ("concurrent conflicting stores both ok", both_ok)]
+
+
+def cw_mutators():
+    return [m for m in mutators() if m[0] in ("mismatch reported as ok", "ok reported as mismatch", "returned value replaced",
+                                              "concurrent conflicting stores both ok")]
 
 
 def run(tier, seed):
@@ -192,6 +272,17 @@ def run(tier, seed):
     r = vlib.tlc("C17", FAMILY, "AggSigDBMC", "AggSigDBMC_noexp.cfg", timeout=600)
     vlib.require_mc_ok(r, "AggSigDBMC_noexp")
     o.add_mc("AggSigDBMC_noexp", r)
+    # concurrent writers (2, thorough also 3): ValueStable / MismatchNoChange / AckedStored under all interleavings of
+    # the writers' Acquire / StoreEntry / StoreReturn steps
+    for ccfg in (["AggSigDBMC_cw_thorough.cfg", "AggSigDBMC_cw3.cfg"] if thorough else ["AggSigDBMC_cw.cfg"]):
+        r = vlib.tlc("C17", FAMILY, "AggSigDBMC", ccfg, timeout=900)
+        vlib.require_mc_ok(r, ccfg)
+        o.add_mc(ccfg[:-4], r)
+    # control: the narrowed write lock (lookup and insert in separate critical sections) must violate them
+    r = vlib.tlc("C17", FAMILY, "AggSigDBMC", "AggSigDBMC_narrow.cfg", timeout=600)
+    if r.violation not in ("NoExpiryReadsCurrent", "ValueStable"):
+        raise vlib.Infra("design-spec control AggSigDBMC_narrow not violated: " + r.summary())
+    o.selftests.append({"control": "narrowed write lock (NarrowLock=TRUE): two concurrent writers both insert a fresh key", "rejected_as_required": True})
     r = vlib.tlc("C17", FAMILY, "AggSigDBMC", "AggSigDBMC_live.cfg", timeout=900)
     vlib.require_mc_ok(r, "AggSigDBMC_live")
     o.add_mc("AggSigDBMC_live", r)
@@ -218,9 +309,14 @@ def run(tier, seed):
     # stage 2+3 (each schedule runs on v1 and on v2)
     vlib.conformance(o, FAMILY, "AggSigDBTrace", "AggSigDBTrace.cfg", "c17", scheds, tag="tlcgen", chunk=125)
     vlib.conformance(o, FAMILY, "AggSigDBTrace", "AggSigDBTrace.cfg", "c17", rnd, tag="random", chunk=125)
+    cw = concurrent_schedules(seed, 300 if thorough else 30, thorough)
+    vlib.conformance(o, FAMILY, "AggSigDBTrace", "AggSigDBTrace.cfg", "c17", cw, tag="concurrent", chunk=125)
+    if not o.violations:
+        trc = vlib.split_traces(vlib.read_ndjson(vlib.workdir("C17") + "/trace_concurrent.ndjson"))
+        vlib.binding_selftest(o, FAMILY, "AggSigDBTrace", "AggSigDBTrace.cfg", trc, cw_mutators())
     if not o.violations:
         tr = vlib.split_traces(vlib.read_ndjson(vlib.workdir("C17") + "/trace_random.ndjson"))
-        vlib.binding_selftest(o, FAMILY, "AggSigDBTrace", "AggSigDBTrace.cfg", tr, mutators())
+        vlib.binding_selftest(o, FAMILY, "AggSigDBTrace", "AggSigDBTrace.cfg", tr, mutators()[:-1])
     return vlib.finish(o, "model_checking", RULE, ASSUMPTIONS)
 
 
